@@ -2,6 +2,7 @@
 import glob
 from tbxlint.facts import extract, AnalysisBroken, MODULES
 from tbxlint import locks, q, exc, own, rd
+from rules import C13_editor
 from tbxlint import harden
 
 T = 'tbox::terminal::Terminal::Impl'
@@ -649,6 +650,12 @@ def r14(ctx, prog):
     resets = [a for a, rhs in q.assigns(stp, 'KeyEventScanner::step_')]
     keeps = any(stp.cfg.exists_path(stp.cfg.entry_point(), q.pt_or_term(stp, r), avoid=q.pts(stp, resets)) for r in q.returns(stp)
                 if 'kEnsure' in stp.path(r['val'] if r.get('val') is not None else -1))
+    # a key that only stop() can report (Enter sent as a bare CR at the end of a string) is dispatched: onEnterKey is reachable behind the test of stop()'s result
+    if stops:
+        ent = [c for c in f.calls() if c.get('fn') == 'onEnterKey']
+        disp = [c for c in ent if any(any(x.get('fn') == 'stop' for x in q.subtree_calls(f, cnd)) for cnd, k, b in f.cfg.controlling_branches(q.pt(f, c)))]
+        ctx.ob('C13.R14', '%s|stop-result-dispatched' % f.name, bool(disp), 'the Enter that stop() reports at the end of a string reaches onEnterKey' if disp else
+               'stop() is called at the end of the string but its result is not dispatched: a line ended by a bare CR is never executed', where=f.loc(stops[0]['i']))
     fresh = bool(starts) and all(any(f.cfg.dominates(q.pt(f, s_), q.pt(f, n_)) for s_ in starts) for n_ in nexts)
     after = bool(stops) and all(q.must_follow(f, q.pt(f, t), q.pts(f, starts)) for t in stops) if starts else not stops
     ok = fresh or after or not keeps
@@ -763,6 +770,8 @@ def run(ctx):
     ctx.guard(r15, ctx, prog)
     ctx.guard(r16, ctx, prog)
     ctx.guard(r17, ctx, prog)
+    ctx.guard(C13_editor.r18, ctx, prog)
+    ctx.guard(C13_editor.r19, ctx, prog)
     ctx.guard(harden.run_threshold, ctx, prog, 'C13.R12', lambda g: g.file.startswith(MODULES + '/terminal/impl/service/'), 'terminal input scanner', 3)
     ctx.guard(harden.run_narrowing, ctx, prog, 'C13.R11', input_entries(prog),
               lambda g: g.file.startswith(MODULES + '/terminal/') or g.file.startswith(MODULES + '/util/'), 'terminal input path')
